@@ -34,7 +34,7 @@ func Scan(data string, loc SourceLoc, delims []string) (tokens []Token) {
 		source := data[ts:te]
 		switch {
 		case strings.HasPrefix(source, delims[0]):
-			if source[2] == '-' {
+			if source[len(delims[0])] == '-' {
 				tokens = append(tokens, Token{
 					Type: TrimLeftTokenType,
 				})
@@ -45,13 +45,13 @@ func Scan(data string, loc SourceLoc, delims []string) (tokens []Token) {
 				Source:    source,
 				Args:      data[m[2]:m[3]],
 			})
-			if source[len(source)-3] == '-' {
+			if source[len(source)-len(delims[1])-1] == '-' {
 				tokens = append(tokens, Token{
 					Type: TrimRightTokenType,
 				})
 			}
 		case strings.HasPrefix(source, delims[2]):
-			if source[2] == '-' {
+			if source[len(delims[2])] == '-' {
 				tokens = append(tokens, Token{
 					Type: TrimLeftTokenType,
 				})
@@ -66,7 +66,7 @@ func Scan(data string, loc SourceLoc, delims []string) (tokens []Token) {
 				tok.Args = data[m[6]:m[7]]
 			}
 			tokens = append(tokens, tok)
-			if source[len(source)-3] == '-' {
+			if source[len(source)-len(delims[3])-1] == '-' {
 				tokens = append(tokens, Token{
 					Type: TrimRightTokenType,
 				})
